@@ -7,6 +7,7 @@ EXTENDS MCStore
 C_Votes    == {<<1, 1>>, <<2, 1>>}
 C_AppIds   == {<<1, 0>>, <<1, 1>>, <<2, 1>>, <<2, 2>>, <<1, 2>>}
 C_Payloads == {<<"a", 1>>, <<"b", 3>>}
+C_PayloadsZ == {<<"a", 1>>, <<"", 0>>}
 C_TruncIdx == {0, 1, 2}
 C_PurgeIds == {<<1, 0>>, <<1, 1>>, <<2, 1>>, <<2, 3>>}
 C_CommitIds == {<<1, 0>>, <<2, 1>>}
